@@ -379,3 +379,63 @@ def handshake_order(P, R, rid):
                             'instance CHECKING: a request stamped before checking_time gets its authorization refused as '
                             'obsolete and the instance stays CHECKING for ever' % q)
     R.require(n >= 2, 'only %d send_check_instance requests found in the tick handlers of Context' % n)
+
+
+def discovery_eligibility(P, R, rid):
+    """a discovered candidate is eligible only when NEITHER its identifier NOR its nick identifier is known: otherwise
+    on_discovery_event replaces the status of a known (possibly ISOLATED) instance by a fresh one."""
+    from ..paths import returns
+    u = P.unit('SupvisorsMapper.check_candidate')
+    trues = [{tuple(f) for f in facts} for v, facts, n in returns(u)
+             if isinstance(v, ast.Constant) and v.value is True]
+    other = [ast.unparse(v) for v, facts, n in returns(u) if v is not None and not (isinstance(v, ast.Constant)
+                                                                                   and v.value in (True, False))]
+    ok = len(trues) == 1 and not other and {('nick_identifier in self._nick_identifiers', False),
+                                            ('identifier in self.instances', False)} <= trues[0]
+    R.check(rid, ok, 'a candidate is eligible only when both its identifier and its nick are unknown',
+            'discovery|eligible', u.loc(), 'SupvisorsMapper.check_candidate returns True under %s / other results %s '
+            '(needs: nick not in _nick_identifiers AND identifier not in instances)' % ([sorted(x) for x in trues], other))
+    ode = P.unit('Context.on_discovery_event')
+    from ..paths import factmap, call_text
+    fm = factmap(ode)
+    mk = [a for a in own_nodes(ode.node) if isinstance(a, ast.Assign) and ast.unparse(a.targets[0]).startswith('self.instances[')]
+    ok = bool(mk) and all(any(pol and 'check_candidate(' in t for t, pol in fm.closed(a)) for a in mk)
+    R.check(rid, ok, 'a new instance status is only created for an eligible candidate', 'discovery|create', ode.loc(),
+            'Context.on_discovery_event stores a new instance status without the fact check_candidate(..)')
+
+
+def reentrant_iterations(P, R, rid):
+    """the periodic checks iterate over COPIES of the job collections: a command that times out forces a process state
+    that loops back synchronously into on_event / next(), which removes entries of those very collections."""
+    for q, want in (('Commander.check', 'list(self.current_jobs.values())'),
+                    ('ApplicationJobs.check', 'list(self.current_jobs)')):
+        u = P.unit(q)
+        loops = [n for n in own_nodes(u.node) if isinstance(n, ast.For) and 'self.current_jobs' in ast.unparse(n.iter)]
+        ok = len(loops) == 1 and ast.unparse(loops[0].iter) in (want, want.replace('list(', 'tuple('))
+        R.check(rid, ok, '%s iterates over a copy of current_jobs' % q, 'reentrant-copy|%s' % q, u.loc(),
+                '%s iterates %s: the forced state of a timed-out command re-enters next() and changes the collection '
+                'during the iteration (RuntimeError caught only by the on_tick guard)' %
+                (q, [ast.unparse(l.iter) for l in loops]))
+
+
+def running_filter(P, R, rid):
+    """strategy.get_supvisors_instance hands the strategy the requested identifiers seen RUNNING, IN THE ORDER they were
+    given (CONFIG = first in that order)."""
+    from ..defuse import comp_view
+    g = P.unit('strategy:get_supvisors_instance')
+    defs = {a.targets[0].id: a.value for a in own_nodes(g.node) if isinstance(a, ast.Assign)
+            and isinstance(a.targets[0], ast.Name)}
+    calls = [c for c in own_nodes(g.node) if isinstance(c, ast.Call) and isinstance(c.func, ast.Attribute)
+             and c.func.attr == 'get_supvisors_instance']
+    ok = False
+    if len(calls) == 1 and calls[0].args:
+        cand = calls[0].args[0]
+        if isinstance(cand, ast.Name):
+            cand = defs.get(cand.id)
+        cv = comp_view(g, cand)
+        src = g.node.args.args[2].arg
+        ok = cv is not None and cv['kind'] == 'list' and cv['iters'] == [src] and cv['elt'] == 'each(%s)' % src and \
+            cv['conds'] == {('each(%s) in supvisors.context.running_identifiers()' % src, True)}
+    R.check(rid, ok, 'candidates are the requested identifiers seen RUNNING, in the requested order',
+            'running-filter|get_supvisors_instance', g.loc(), 'get_supvisors_instance does not hand the strategy exactly '
+            '[i for i in identifiers if i in context.running_identifiers()]')
